@@ -1,0 +1,11 @@
+//go:build !verif
+
+package txwatcher
+
+import "time"
+
+// Verification hooks (see verif_on.go); identities without the verif tag.
+
+func verifTick(d time.Duration) time.Duration { return d }
+
+func verifPollSleep() time.Duration { return 0 }
